@@ -97,6 +97,7 @@ class _Sim:
         self.cwd = os.getcwd()
         self.real_open = builtins.open
         self.real = {}
+        self.sched = None
 
     # ---------------------------------------------------------------- helpers
     def norm(self, path, follow_last=True):
@@ -377,6 +378,7 @@ class _Sim:
             "patched_compute_tax": self.patched_compute_tax,
             "clock": clock,
             "py_exception": py_exception,
+            "sched_steps": getattr(getattr(self, "sched", None), "steps", 0),
             "modules_rp2": sorted(m for m in sys.modules if m == "rp2" or m.startswith("rp2.")),
         }
         tmp = self.spec["result_path"] + ".part"
@@ -552,6 +554,330 @@ def _dump_computed(cd):
     return out
 
 
+# ------------------------------------------------------------------------------ seeded scheduling of threads
+#
+# RP2 has no threads. Should a change introduce them (a thread pool around the per-asset loop, report generators run in parallel), the
+# order in which the workers finish would be decided by the operating system: results that depend on it fail one run in N and do not
+# replay. The seam below puts that order under the simulator: tasks given to concurrent.futures.ThreadPoolExecutor,
+# multiprocessing.pool.ThreadPool / multiprocessing.dummy.Pool and threading.Thread are not handed to OS threads; they are queued and
+# executed one at a time, to completion, in an order drawn from random.Random(sched_seed), at the points where the submitting code
+# waits for them (result(), as_completed(), wait(), map(), join(), shutdown(), Queue.get(), Event.wait(), interpreter exit).
+# One seed = one completion order, replayed exactly; other seeds explore other orders. Interleavings *inside* a task (two workers
+# mutating shared state mid-way) are not explored: tasks are atomic here. Dormant on a tree without threads.
+
+
+class _Sched:
+    def __init__(self, sim, seed):
+        import random  # pylint: disable=import-outside-toplevel
+
+        self.sim = sim
+        self.rng = random.Random(seed)
+        self.pending = []  # [label, owner, callable]
+        self.completed = 0
+        self.steps = 0
+        self.running = 0
+
+    def add(self, label, owner, fn):
+        self.pending.append([label, owner, fn])
+
+    def step(self, among=None):
+        """Run one pending task chosen by the seeded generator (restricted to owners in `among` when given). False if none."""
+        idx = [i for i, t in enumerate(self.pending) if among is None or t[1] in among]
+        if not idx:
+            return False
+        i = idx[self.rng.randrange(len(idx))]
+        label, owner, fn = self.pending.pop(i)
+        self.steps += 1
+        self.sim.record("sim.sched", step=self.steps, chose=label, of=len(idx))
+        self.running += 1
+        try:
+            fn()
+        finally:
+            self.running -= 1
+        return True
+
+    def drain(self, among=None):
+        while self.step(among):
+            pass
+
+
+def _install_sched(sim, seed):  # pylint: disable=too-many-statements,too-many-locals
+    import concurrent.futures as cf  # pylint: disable=import-outside-toplevel
+    import concurrent.futures.thread as cft  # pylint: disable=import-outside-toplevel
+    import queue  # pylint: disable=import-outside-toplevel
+    import threading  # pylint: disable=import-outside-toplevel
+
+    sched = _Sched(sim, seed)
+    sim.sched = sched
+
+    class SimFuture(cf.Future):
+        def __init__(self, owner):
+            super().__init__()
+            self.sim_owner = owner
+            self.sim_seq = None
+
+        def _drive(self):
+            while not cf.Future.done(self) and sched.step():
+                pass
+
+        def result(self, timeout=None):
+            self._drive()
+            return super().result(timeout)
+
+        def exception(self, timeout=None):
+            self._drive()
+            return super().exception(timeout)
+
+        def done(self):
+            if not super().done():
+                sched.step()  # a polling loop makes progress
+            return super().done()
+
+    def make_task(fut, fn, args, kwargs, before=None):
+        def task():
+            if not fut.set_running_or_notify_cancel():
+                return
+            try:
+                if before:
+                    before()
+                res = fn(*args, **kwargs)
+            except BaseException as exc:  # pylint: disable=broad-except
+                sched.completed += 1
+                fut.sim_seq = sched.completed
+                fut.set_exception(exc)
+            else:
+                sched.completed += 1
+                fut.sim_seq = sched.completed
+                fut.set_result(res)
+        return task
+
+    counter = [0]
+
+    class SimThreadPoolExecutor:
+        def __init__(self, max_workers=None, thread_name_prefix="", initializer=None, initargs=()):
+            counter[0] += 1
+            self.sim_id = "pool%d" % counter[0]
+            self._max_workers = max_workers or 4
+            self._init = (initializer, initargs)
+            self._inited = False
+            self._shutdown = False
+            self._n = 0
+            del thread_name_prefix
+
+        def _before(self):
+            if not self._inited:
+                self._inited = True
+                if self._init[0]:
+                    self._init[0](*self._init[1])
+
+        def submit(self, fn, /, *args, **kwargs):
+            if self._shutdown:
+                raise RuntimeError("cannot schedule new futures after shutdown")
+            fut = SimFuture(self)
+            self._n += 1
+            sched.add("%s.task%d" % (self.sim_id, self._n), self, make_task(fut, fn, args, kwargs, self._before))
+            return fut
+
+        def map(self, fn, *iterables, timeout=None, chunksize=1):
+            del timeout, chunksize
+            futs = [self.submit(fn, *a) for a in zip(*iterables)]
+
+            def gen():
+                for f in futs:
+                    yield f.result()
+            return gen()
+
+        def shutdown(self, wait=True, *, cancel_futures=False):
+            self._shutdown = True
+            if cancel_futures:
+                sched.pending[:] = [t for t in sched.pending if t[1] is not self]
+            elif wait:
+                sched.drain({self})
+
+        def __enter__(self):
+            return self
+
+        def __exit__(self, *a):
+            self.shutdown(wait=True)
+            return False
+
+    real_as_completed, real_wait = cf.as_completed, cf.wait
+
+    def as_completed(fs, timeout=None):
+        fs = list(fs)
+        simf = [f for f in fs if isinstance(f, SimFuture)]
+        rest = [f for f in fs if not isinstance(f, SimFuture)]
+        remaining = set(simf)
+        while remaining:
+            ready = sorted((f for f in remaining if cf.Future.done(f)), key=lambda f: f.sim_seq or 0)
+            if ready:
+                remaining.discard(ready[0])
+                yield ready[0]
+            elif not sched.step():
+                break
+        for f in remaining:
+            yield f
+        if rest:
+            yield from real_as_completed(rest, timeout)
+
+    def wait(fs, timeout=None, return_when=cf.ALL_COMPLETED):
+        fs = list(fs)
+        simf = [f for f in fs if isinstance(f, SimFuture)]
+        if return_when == cf.ALL_COMPLETED:
+            while any(not cf.Future.done(f) for f in simf) and sched.step():
+                pass
+        else:
+            while simf and not any(cf.Future.done(f) for f in simf) and sched.step():
+                pass
+        return real_wait(fs, timeout, return_when)
+
+    cf.ThreadPoolExecutor = SimThreadPoolExecutor
+    cft.ThreadPoolExecutor = SimThreadPoolExecutor
+    cf.as_completed = as_completed
+    cf.wait = wait
+    try:
+        import concurrent.futures._base as cfb  # pylint: disable=import-outside-toplevel
+
+        cfb.as_completed = as_completed
+        cfb.wait = wait
+    except Exception:  # pylint: disable=broad-except
+        pass
+
+    # threading.Thread: start() queues the body, join() / blocking waits / interpreter exit run it
+    real_start, real_join, real_alive = threading.Thread.start, threading.Thread.join, threading.Thread.is_alive
+    tcount = [0]
+
+    def t_start(self):
+        if not sim.armed or getattr(self, "_sim_state", None) is not None:
+            return real_start(self)
+        tcount[0] += 1
+        self._sim_state = "queued"
+        label = "thread%d:%s" % (tcount[0], self.name if not self.name.startswith("Thread-") else "anon")
+
+        def body():
+            self._sim_state = "running"
+            try:
+                self.run()
+            except BaseException:  # pylint: disable=broad-except
+                import traceback  # pylint: disable=import-outside-toplevel
+
+                traceback.print_exc()
+            finally:
+                self._sim_state = "done"
+        sched.add(label, self, body)
+        return None
+
+    def t_join(self, timeout=None):
+        st = getattr(self, "_sim_state", None)
+        if st is None:
+            return real_join(self, timeout)
+        while self._sim_state == "queued" and sched.step():
+            pass
+        return None
+
+    def t_alive(self):
+        st = getattr(self, "_sim_state", None)
+        if st is None:
+            return real_alive(self)
+        return st in ("queued", "running")
+
+    threading.Thread.start = t_start
+    threading.Thread.join = t_join
+    threading.Thread.is_alive = t_alive
+
+    real_get = queue.Queue.get
+
+    def q_get(self, block=True, timeout=None):
+        if block:
+            while self.empty() and sched.step():
+                pass
+        return real_get(self, block, timeout)
+
+    queue.Queue.get = q_get
+    real_ewait = threading.Event.wait
+
+    def e_wait(self, timeout=None):
+        while not self.is_set() and sched.step():
+            pass
+        return real_ewait(self, timeout)
+
+    threading.Event.wait = e_wait
+
+    # multiprocessing.pool.ThreadPool / multiprocessing.dummy.Pool
+    class SimAsyncResult:
+        def __init__(self, futs, single):
+            self._futs, self._single = futs, single
+
+        def get(self, timeout=None):
+            res = [f.result() for f in self._futs]
+            return res[0] if self._single else res
+
+        def wait(self, timeout=None):
+            for f in self._futs:
+                f.exception()
+
+        def ready(self):
+            return all(f.done() for f in self._futs)
+
+        def successful(self):
+            return all(f.exception() is None for f in self._futs)
+
+    class SimThreadPool:
+        def __init__(self, processes=None, initializer=None, initargs=()):
+            self._ex = SimThreadPoolExecutor(processes, initializer=initializer, initargs=initargs)
+
+        def apply(self, func, args=(), kwds=None):
+            return self._ex.submit(func, *args, **(kwds or {})).result()
+
+        def apply_async(self, func, args=(), kwds=None, callback=None, error_callback=None):
+            f = self._ex.submit(func, *args, **(kwds or {}))
+            if callback or error_callback:
+                f.add_done_callback(lambda fu: (callback(fu.result()) if fu.exception() is None and callback else (error_callback(fu.exception()) if fu.exception() is not None and error_callback else None)))
+            return SimAsyncResult([f], True)
+
+        def map(self, func, iterable, chunksize=None):
+            return list(self._ex.map(func, iterable))
+
+        def map_async(self, func, iterable, chunksize=None, callback=None, error_callback=None):
+            return SimAsyncResult([self._ex.submit(func, x) for x in iterable], False)
+
+        def starmap(self, func, iterable, chunksize=None):
+            return [f.result() for f in [self._ex.submit(func, *x) for x in iterable]]
+
+        def imap(self, func, iterable, chunksize=1):
+            return self._ex.map(func, iterable)
+
+        def imap_unordered(self, func, iterable, chunksize=1):
+            futs = [self._ex.submit(func, x) for x in iterable]
+            return (f.result() for f in as_completed(futs))
+
+        def close(self):
+            pass
+
+        def terminate(self):
+            self._ex.shutdown(wait=False, cancel_futures=True)
+
+        def join(self):
+            self._ex.shutdown(wait=True)
+
+        def __enter__(self):
+            return self
+
+        def __exit__(self, *a):
+            self.terminate()
+            return False
+
+    try:
+        import multiprocessing.dummy as mpd  # pylint: disable=import-outside-toplevel
+        import multiprocessing.pool as mpp  # pylint: disable=import-outside-toplevel
+
+        mpp.ThreadPool = SimThreadPool
+        mpd.Pool = lambda processes=None, initializer=None, initargs=(): SimThreadPool(processes, initializer, initargs)
+    except Exception:  # pylint: disable=broad-except
+        pass
+    return sched
+
+
 def main():
     with open(sys.argv[1], encoding="utf-8") as fh:
         spec = json.load(fh)
@@ -560,6 +886,8 @@ def main():
     random.seed(spec.get("random_seed", 0))
     sim = _Sim(spec)
     sim.install_wrappers()
+    if spec.get("sched", True):
+        _install_sched(sim, spec.get("sched_seed", 0))
     sys.addaudithook(sim.hook)
     sys.argv = [spec.get("prog", "rp2")] + list(spec["argv"])
     code = 0
@@ -610,6 +938,9 @@ def main():
     # atexit handlers (a cache flushed "on exit", a report written from an atexit hook ... must be seen by the monitors too)
     sim.armed = True
     try:
+        if getattr(sim, "sched", None) is not None:
+            # what threading._shutdown() does for non-daemon threads: wait for them (here: run what is still queued, seeded order)
+            sim.sched.drain()
         th = sys.modules.get("threading")
         if th is not None and th.active_count() > 1:
             sim.record("info", name="threads-alive-at-exit", detail=repr(sorted(t.name for t in th.enumerate()))[:200])
